@@ -203,6 +203,10 @@ def api_documents(ctx: Ctx):
         t.write(i // 4 + 1, i % 4, v)
     t.merge_cells("A5:B5")
     d.add_sheet("Second", "Other", num_rows=3, num_cols=3)
+    t2 = d.sheets[1].tables[0]
+    for i, v in enumerate([timedelta(seconds=-1.25), timedelta(days=-3, seconds=-0.5), timedelta(milliseconds=-1),
+                           timedelta(seconds=-59.999), timedelta(seconds=1.25), timedelta(days=-1)]):
+        t2.write(1 + i // 3, i % 3, v)
     docs.append(("api-values", d))
     # merges covering whole rows and whole columns, data around them
     d = Document(num_rows=8, num_cols=3)
